@@ -89,7 +89,8 @@ CLAIMED["C06"] = dict(
          "(Decode(FileBytes(calls)) = ExpectedImage(calls)) and the torn-prefix property exhaustively over bounded writer call sequences at "
          "w=8/16 x versions 0-2; every emitted sequence is performed on the real Writer (per-call accept/refuse, byte-exact file, version 3 "
          "alongside 2) and read back; generated sequences at all widths are judged record by record by TLC (Trace_FJMFormat): acceptance, bytes, "
-         "loaded segments, every loaded word, zero tails, invalidity outside segments.",
+         "loaded segments, every loaded word, zero tails, invalidity outside segments. Round trips of 1.35M-word segments (beyond the 8 MiB LZMA "
+         "dictionary) at several presets are judged through digests (Trace_FJMScale).",
     note="Trusted: FJMFormat.tla; TLC; LZMA treated as opaque. Bounded: exhaustive part <=3 segments, <=6 data words at w=8/16; other widths, "
          "high addresses, zero tails and out-of-range arguments by seeded generation.",
     ref="DESIGN.md section 2 (C06/C10)",
